@@ -11,8 +11,10 @@
 (* Hosts are 1..N.  dc[h] is the datacenter the cluster currently reports    *)
 (* for h (NoDC = not known yet: contact points before the first refresh).    *)
 (* Events, as cassandra/cluster.py delivers them to policy objects:          *)
-(*   Populate(S, f, u)  populate(cluster, hosts): the hosts S, located as f, *)
-(*                      handed over in ANY order (Cluster.connect 1733-1736, *)
+(*   Learn(h, d, up)    before populate: the cluster records host h, located *)
+(*                      in d, in its metadata - no policy call               *)
+(*   Populate           populate(cluster, hosts): all known hosts handed     *)
+(*                      over in ANY order (Cluster.connect 1733-1736,        *)
 (*                      add_execution_profile 1543)                          *)
 (*   Up(h) / Down(h)    on_up / on_down  (Cluster.on_up 1877, on_down 1974)  *)
 (*   Add(h, d)          on_add of a host object located in d (on_add 2012)   *)
@@ -33,7 +35,7 @@
 (*               with target_host = target (0 = none)          1131-1162     *)
 (*                                                                           *)
 (* TLC labels every edge of the dumped state graph with the action and its    *)
-(* arguments (Up(2), Relocate(1,"B"), Populate({1,2},f,u)); the replay reads  *)
+(* arguments (Up(2), Relocate(1,"B"), Learn(1,"",TRUE)); the replay reads    *)
 (* the call to make from that label.                                         *)
 EXTENDS Naturals, Sequences, FiniteSets, TLC
 
@@ -138,16 +140,27 @@ Detect(h, d) == IF Auto(pol) /\ local = NoDC /\ h \in pol.cp /\ d[h] # NoDC THEN
 
 Finish == exp' = Expect(pol, known', live', dc', local', isup')
 
-Populate(S, f, u) ==
+\* Before populate() the cluster only fills its metadata (Cluster.add_host(signal=False) for the contact
+\* points, 1727; or everything already known when a profile is added later): no policy call.
+Learn(h, d, up) ==
     /\ ~populated
-    /\ S # {} /\ u \subseteq S
-    /\ \A h \in S : DcAllowed(pol, h, f[h])
-    /\ pol.kind # "Default" => u = S
+    /\ h \in H \ known /\ d \in DCs \cup {NoDC}
+    /\ DcAllowed(pol, h, d)
+    /\ pol.kind # "Default" => up
+    /\ known' = known \cup {h}
+    /\ dc' = [dc EXCEPT ![h] = d]
+    /\ isup' = TrackUp(IF up THEN isup \cup {h} ELSE isup)
+    /\ UNCHANGED <<pol, populated, live, local>>
+    /\ Finish
+
+\* populate(cluster, metadata.all_hosts()): every known host, in ANY order (the order is not part of the
+\* post-state; the replay tries every order)
+Populate ==
+    /\ ~populated
+    /\ known # {}
     /\ populated' = TRUE
-    /\ known' = S /\ live' = S
-    /\ isup' = TrackUp(u)
-    /\ dc' = [h \in H |-> IF h \in S THEN f[h] ELSE NoDC]
-    /\ UNCHANGED <<pol, local>>
+    /\ live' = known
+    /\ UNCHANGED <<pol, known, dc, local, isup>>
     /\ Finish
 
 Up(h) ==
@@ -194,10 +207,9 @@ Relocate(h, d) ==
     /\ UNCHANGED <<pol, populated, known, isup>>
     /\ Finish
 
-PopulateAny == \E S \in SUBSET H : \E f \in [S -> DCs \cup {NoDC}] : \E u \in SUBSET S : Populate(S, f, u)
-
 Next ==
-    \/ PopulateAny
+    \/ Populate
+    \/ \E h \in H, d \in DCs \cup {NoDC}, up \in BOOLEAN : Learn(h, d, up)
     \/ \E h \in H : Up(h) \/ Down(h) \/ Remove(h)
     \/ \E h \in H, d \in DCs : Add(h, d) \/ Relocate(h, d)
 
